@@ -112,6 +112,7 @@ structure Thread where
   epi : List Instr           -- where control goes when an exception is raised in the body
   subs : List (Nat × Nat) := []     -- the subscriptions it holds (for the wiring dump)
   free : List String := []   -- `flow_freely` seen by a `divide_outputs` reader (sorted), for the wiring dump
+  outs : List String := []   -- `outputs` of a `divide_outputs` reader, for the wiring dump
 deriving Repr, DecidableEq, Inhabited
 
 structure Net where
@@ -203,7 +204,7 @@ def dividerThread (name : String) (lazy : Bool) (src : Nat × Nat) (outs : List 
   let round := gates ++ [.read src.1 src.2] ++ outs.map (fun o => Instr.send o.1)
   let final := gates ++ [.read src.1 src.2] ++ (if guarded then [] else [.dropEpi]) ++ outs.map (fun o => Instr.close o.1)
   { name := name, body := replicate' count round ++ final, epi := outs.map (fun o => Instr.killIfExc o.1),
-    subs := [src], free := free }
+    subs := [src], free := free, outs := outs.map (·.2) }
 
 /-- `saver.save_from(source)`: one `save` per chunk; `close` in the `finally` -/
 def saverThread (name : String) (src : Nat × Nat) (count : Nat) (sv : SaverD) : Thread :=
@@ -270,9 +271,12 @@ def wirePlugins (c : Components) (lazy : Bool) (free : List String) (guarded : B
           let (w1, mi) := w.touch mname
           let (w2, inputs) := w1.subscribeAll p.dependsOn
           let w3 := w2.addThread mi (senderThread s!"divide_outputs:{d}" lazy mi inputs p.prog)
-          -- `add_reader(partial(divide_outputs, mailboxes={k: self.mailboxes[k] for k in p.provides}, …))`:
+          -- `add_reader(partial(divide_outputs, mailboxes={k: self.mailboxes[k] for k in divided}, …))`:
           -- the dict comprehension is evaluated before `add_reader` subscribes
-          let (w4, outs) := p.provides.foldl (fun (acc : W × List (Nat × String)) k =>
+          -- outputs that are loaded from storage already have a sender (their loader): the divider only
+          -- gets `divided = tuple(k for k in p.provides if k not in components.loaders)`   (fix of D13)
+          let divided := p.provides.filter fun k => !(c.loaders.any fun x => x.1 == k)
+          let (w4, outs) := divided.foldl (fun (acc : W × List (Nat × String)) k =>
             let (wa, i) := acc.1.touch k
             (wa, acc.2 ++ [(i, k)])) (w3, [])
           let (w5, _, s) := w4.subscribe mname true
